@@ -452,9 +452,9 @@ ALPHA_TYPES = [6, 32802, 32512, 65280, 8, 28, 32808, 36, 0]
 LETTER_TYPES = [6, 6, 32802, 32802, 32512, 65280, 8, 8, 28, 28, 28, 32808, 32808, 32808, 32808, 36, 32802, 65280, 6, 0]
 
 
-def gen_messages(n, seed, wd, maxattrs=5, tag="gen"):
+def gen_messages(n, seed, wd, maxattrs=5, tag="gen", nbig=0):
     p = os.path.join(wd, "%s.ndjson" % tag)
-    run_harness(["gen", str(n), str(seed), p, str(maxattrs)])
+    run_harness(["gen", str(n), str(seed), p, str(maxattrs), str(nbig)])
     r = read_ndjson(p)
     os.remove(p)
     return r
@@ -1181,7 +1181,7 @@ def c12(rep, tier, seed, wd):
 def c03(rep, tier, seed, wd):
     mc, lres, nodes, states, cases = builder_check("C03", rep, tier, seed, wd)
     n = 1200 if tier == "quick" else 15000
-    gm = gen_messages(n, seed + 7, wd, maxattrs=7)
+    gm = gen_messages(n, seed + 7, wd, maxattrs=7, nbig=8 if tier == "quick" else 60)
     gcs = [{"bytes": g["bytes"], "creds": g["creds"][:1], "src": "generated message %d" % g["id"], "gen": g["gen"]} for g in gm if not g["gen"]["by_ext"]]
     triples = run_pipeline([{k: v for k, v in c.items()} for c in gcs], wd, "c03", trace=False)
     ntyped = 0
